@@ -66,3 +66,15 @@ pub open spec fn dec_raw(s: Seq<u8>) -> Option<RawView> {
             match dec_keys(r1, n as nat) { None => None, Some((keys, r2)) => Some(RawView::Remove { keys }) } }
     } else { None }
 }
+// ---- index snapshot: [u64 last_persisted_version][u32 num_entries]([u32 key_len][key][32-byte hash][u64 size])* ----
+pub open spec fn dec_entry_rest(s: Seq<u8>) -> Option<Seq<u8>> {
+    match dec_bytes(s) { None => None, Some((k, r1)) => match dec_fixed(r1, 32) { None => None, Some((h, r2)) => match dec_u64(r2) { None => None, Some((sz, r3)) => Some(r3) } } }
+}
+/// n entries can be decoded from s (independent reader of the documented snapshot format)
+pub open spec fn dec_entries_ok(s: Seq<u8>, n: nat) -> bool
+    decreases n
+{ if n == 0 { true } else { match dec_entry_rest(s) { None => false, Some(rest) => dec_entries_ok(rest, (n - 1) as nat) } } }
+pub open spec fn dec_index_ok(s: Seq<u8>) -> bool {
+    match dec_u64(s) { None => false, Some((v, r1)) => match dec_u32(r1) { None => false, Some((n, r2)) => dec_entries_ok(r2, n as nat) } }
+}
+pub open spec fn dec_index_version(s: Seq<u8>) -> u64 { de64(s.subrange(0, 8)) }
